@@ -102,6 +102,26 @@ def c04_events(version, n, seed):
     for i in range(m):
         events.append({"kind": "etau", "e": bits(pe[i]), "b": bits(pb[i]), "u": bits(pu[i]), "E": bits(Et[i]),
                        "_m": {"ver": version, "e": pe[i], "b": pb[i], "u": pu[i], "E": float(Et[i])}})
+    # other shapes and spellings of a batch: 2-D arrays (C and Fortran order), whole-number energies as an integer array
+    k2 = 12
+    fb = rng.uniform(B[0], B[-1], k2)
+    fe = rng.uniform(6.0, 12.0, k2)
+    fu = rng.uniform(0.01, 0.99, k2)
+    forms = [("2-D", fb.reshape(3, 4), fe.reshape(3, 4), fu.reshape(3, 4)),
+             ("Fortran 2-D", np.asfortranarray(fb.reshape(3, 4)), np.asfortranarray(fe.reshape(3, 4)), np.asfortranarray(fu.reshape(3, 4))),
+             ("integer energies", fb, np.array([6, 7, 8, 9, 10, 11, 12, 9, 8, 7, 10, 11], dtype=np.int64), fu)]
+    for form, xb, xe, xu in forms:
+        try:
+            Eo = np.asarray(taus.tau_energy(xb.copy(order="K"), xe.copy(order="K"), xu.copy(order="K")), dtype=float)
+            if Eo.shape != np.shape(xb):
+                raise ValueError(f"result shape {Eo.shape} for input shape {np.shape(xb)}")
+        except Exception as ex:
+            events.append({"kind": "reject", "e": bits(float(np.ravel(xe)[0])), "raised": True,
+                           "_m": {"ver": version, "what": "tau_energy legal batch raised", "form": form, "exc": repr(ex)[:200]}})
+            continue
+        for idx in np.ndindex(np.shape(xb)):
+            events.append({"kind": "etau", "e": bits(float(xe[idx])), "b": bits(float(xb[idx])), "u": bits(float(xu[idx])), "E": bits(float(Eo[idx])),
+                           "_m": {"ver": version, "e": float(xe[idx]), "b": float(xb[idx]), "u": float(xu[idx]), "E": float(Eo[idx]), "form": form}})
     # all angles out of range / all low / single event batches
     for bvals in ([np.pi / 3] * 3, [0.0] * 3, [B[5]], [0.0], [1.2]):
         bb = np.array(bvals, dtype=float)
@@ -250,6 +270,23 @@ def c05_events(version, n, seed, all_nodes=True):
         if p2[i] != p[i]:
             events.append({"kind": "pexit", "e": bits(es[i]), "b": bits(bs[i]), "p": bits(p2[i]),
                            "_m": {"ver": version, "e": es[i], "b": bs[i], "p": float(p2[i]), "second_call": True}})
+    k2 = 12
+    fb = rng.uniform(0.0, B[-1], k2)
+    fe = rng.uniform(6.0, 12.0, k2)
+    for form, xb, xe in (("2-D", fb.reshape(3, 4), fe.reshape(3, 4)),
+                         ("Fortran 2-D", np.asfortranarray(fb.reshape(3, 4)), np.asfortranarray(fe.reshape(3, 4))),
+                         ("integer energies", fb, np.array([6, 7, 8, 9, 10, 11, 12, 9, 8, 7, 10, 11], dtype=np.int64))):
+        try:
+            po = np.asarray(taus.tau_exit_prob(xb.copy(order="K"), xe.copy(order="K")), dtype=float)
+            if po.shape != np.shape(xb):
+                raise ValueError(f"result shape {po.shape} for input shape {np.shape(xb)}")
+        except Exception as ex:
+            events.append({"kind": "reject", "e": bits(float(np.ravel(xe)[0])), "raised": True,
+                           "_m": {"ver": version, "e": float(np.ravel(xe)[0]), "what": "tau_exit_prob legal batch raised", "form": form, "raised": True, "exc": repr(ex)[:200]}})
+            continue
+        for idx in np.ndindex(np.shape(xb)):
+            events.append({"kind": "pexit", "e": bits(float(xe[idx])), "b": bits(float(xb[idx])), "p": bits(float(po[idx])),
+                           "_m": {"ver": version, "e": float(xe[idx]), "b": float(xb[idx]), "p": float(po[idx]), "form": form}})
     for e in (5.0, np.nextafter(6.0, 0), 6.0, 12.0, np.nextafter(12.0, 13), 14.0):
         try:
             taus.tau_exit_prob(np.array([0.3, 0.2]), np.array([8.0, e]))
